@@ -79,8 +79,11 @@ def run(R):
             if subs:
                 emit_and_check(R, name + '/ancestor-after-descendant', r, c, dict(W, sequence='root, descendants, root again'))
                 # a new parent around an already serialised cell
-                parent_r = rc.RC('1011', (r, subs[0][1]))
-                st2, parent = mon.call(lambda: B.Builder().store_bits('1011').store_ref(c).store_ref(subs[0][0]).end_cell())
+                try:
+                    parent_r = rc.RC('1011', (r, subs[0][1]))
+                except rc.RefError:          # e.g. the root already has depth 1023: no parent exists
+                    parent_r = None
+                st2, parent = mon.call(lambda: B.Builder().store_bits('1011').store_ref(c).store_ref(subs[0][0]).end_cell()) if parent_r is not None else ('skip', None)
                 if st2 == 'ok':
                     emit_and_check(R, name + '/new-parent-of-serialised-cells', parent_r, parent, dict(W, sequence='children first, then a new parent'))
         # objects derived from the cell are used (a builder made from it gets more references and bits, a slice of it is read), then the cell is emitted again
